@@ -12,5 +12,7 @@ for prof in ('debug', 'release'):
     common.build_replay(prof)
 for kind in ('shm', 'dlib', 'dbin'):
     common.dump_mir(kind)
+from vcheck.kani_run import run_kani
+print('kani warm-up:', run_kani('refid_is_the_big_endian_packing_of_its_ascii_bytes').get('verdict'))
 print('setup ok')
 PY
